@@ -90,6 +90,11 @@ func vfC01eval(c *vfC01Case) (sum map[string]any, verr error) {
 	}
 	defer epoch.Close()
 
+	type vfHeld struct {
+		i    int
+		data []byte
+	}
+	var held []vfHeld
 	for i := range ep.Objects {
 		o := &ep.Objects[i]
 		got, err := c2o.Get(o.Cid)
@@ -105,6 +110,16 @@ func vfC01eval(c *vfC01Case) (sum map[string]any, verr error) {
 		}
 		if !bytes.Equal(data, o.Data) {
 			return sum, fmt.Errorf("object #%d (kind %d) cid %s: GetNodeByCid returned %d bytes that differ from the object's %d bytes", i, o.Kind, o.Cid, len(data), len(o.Data))
+		}
+		if len(held) < 4000 {
+			held = append(held, vfHeld{i, data})
+		}
+	}
+	// a caller keeps what it fetched while it fetches more (getBlock assembles a block from many objects): the
+	// bytes handed out earlier must still be that object's bytes after all the later fetches
+	for _, hd := range held {
+		if o := &ep.Objects[hd.i]; !bytes.Equal(hd.data, o.Data) {
+			return sum, fmt.Errorf("object #%d (kind %d) cid %s: the bytes returned by GetNodeByCid changed while later objects were fetched", hd.i, o.Kind, o.Cid)
 		}
 	}
 	for _, b := range ep.Blocks {
